@@ -126,11 +126,24 @@ def _run_hw_task(mod, task, tier, prop):
         results += engine.prove_inductive(c, prefix, timeout_ms=tmo)
     if "response" in modes:
         results += engine.run_responses(c, prefix, timeout_ms=tmo)
+    if "window" in modes:
+        results += engine.run_windows(c, prefix, timeout_ms=tmo)
     if "bounded" in modes:
         results += engine.run_bounded(c, prefix, task.get("depth", 20), clauses=task.get("bounded_clauses"),
                                       timeout_ms=tmo, include_ensures=task.get("bounded_all", "inductive" not in modes))
-    if "cover" in modes:
-        results += engine.run_covers(c, prefix, timeout_ms=tmo)
+    if "cover" in modes and c.covers:
+        # existential: a native simulation run of the real module that reaches the cover is a witness; the solver is
+        # only asked for the covers random simulation did not reach
+        nat, rest = engine.run_covers_native(c, prefix, list(c.covers), max(d for _, d in c.covers.values()) + 1,
+                                             seed=int(os.environ.get("VERIF_SEED", "0") or 0))
+        results += nat
+        deep = [n for n in rest if c.covers[n][1] > 80]
+        for n in deep:
+            results.append(engine._res("%s/cover/%s" % (prefix, n), "cover", "vacuous", 0.0, depth=c.covers[n][1],
+                                       note="not reached by native simulation; too deep for the solver"))
+        rest = [n for n in rest if n not in deep]
+        if rest:
+            results += engine.run_covers(c, prefix, timeout_ms=tmo, only=rest)
     dt = None
     if "difftest" in modes:
         n = task.get("difftest_cycles", 120 if tier == "quick" else 1000)
@@ -138,10 +151,15 @@ def _run_hw_task(mod, task, tier, prop):
         ncyc, ncmp, mism = engine.difftest(c, n, seed, bias=getattr(c, "difftest_bias", None))
         dt = {"cycles": ncyc, "comparisons": ncmp, "mismatches": len(mism), "first": [list(map(str, m)) for m in mism[:5]]}
     # ---- failed obligations: find a trace from reset where needed, replay natively
+    nfail = 0
+    t_fail = time.time()
     for r in results:
         if r["status"] != "failed":
             continue
-        _handle_failure(mod, task, tier, prop, c, r)
+        nfail += 1
+        # the search for a trace from reset is budgeted: first 3 failed obligations of a task, 5 minutes in total
+        budget_ok = nfail <= task.get("max_searched_failures", 3) and time.time() - t_fail < 300
+        _handle_failure(mod, task, tier, prop, c, r, search=budget_ok)
     return {"results": results, "difftest": dt, "info": info, "contract": c.name}
 
 
@@ -155,7 +173,7 @@ def _clause_of(c, r):
     return name, None
 
 
-def _handle_failure(mod, task, tier, prop, c, r):
+def _handle_failure(mod, task, tier, prop, c, r, search=True):
     from . import engine
     import z3
     name, fn = _clause_of(c, r)
@@ -164,7 +182,36 @@ def _handle_failure(mod, task, tier, prop, c, r):
               "module": mod.__name__, "clause": name,
               "solver": {"name": r.get("backend"), "status": "sat (obligation refuted)", "seconds": r["seconds"]}}
     reproduced = False
-    if fn is not None and trace is not None:
+    if not search and not r.get("from_reset"):
+        replay["cti"] = _thin(trace) if trace is not None else None
+        replay["search_from_reset"] = {"skipped": "per-task search budget used by earlier failed obligations"}
+        trace = None
+    if name in c.windows and trace is not None:
+        goal, wdepth = c.windows[name]
+        replay["cti"] = _thin(trace)
+        depth = task.get("search_depth", 40 if tier == "quick" else 80)
+        t0 = time.time()
+        try:
+            tr2, start = engine.find_window_from_reset(c, goal, wdepth, depth,
+                                                       timeout_ms=task.get("search_timeout_ms", 40000 if tier == "quick" else 120000))
+        except Exception as e:  # noqa
+            tr2, start = None, None
+            replay["search_error"] = str(e)
+        replay["search_from_reset"] = {"depth": depth, "seconds": round(time.time() - t0, 2), "found": tr2 is not None}
+        if tr2 is not None:
+            replay["kind"] = "window"
+            replay["trace"] = _thin(tr2)
+            replay["window_start"] = start
+            replay["window_depth"] = wdepth
+            try:
+                c2 = getattr(mod, task["fn"])(task.get("cfg"))
+                rr = engine.replay_window_native(c2, tr2, c2.windows[name][0], wdepth, start)
+                replay["native"] = rr
+                reproduced = bool(rr["violated"]) and rr["assume_fail"] is None
+            except Exception as e:  # noqa
+                replay["native_error"] = "%s: %s" % (type(e).__name__, e)
+                replay["native_traceback"] = traceback.format_exc()
+    elif fn is not None and trace is not None:
         if not r.get("from_reset"):
             # counterexample-to-induction / arbitrary-state counterexample: look for a real trace from reset
             replay["cti"] = _thin(trace)
@@ -172,7 +219,7 @@ def _handle_failure(mod, task, tier, prop, c, r):
             t0 = time.time()
             try:
                 tr2 = engine.find_trace_from_reset(c, lambda v: z3.Not(fn(v)), depth,
-                                                   timeout_ms=task.get("search_timeout_ms", 60000))
+                                                   timeout_ms=task.get("search_timeout_ms", 30000 if tier == "quick" else 90000))
             except Exception as e:  # noqa
                 tr2 = None
                 replay["search_error"] = str(e)
@@ -414,6 +461,14 @@ def replay_file(path):
         ok = isinstance(ff, int) and rr["assume_fail"] is None
         print("replay %s: clause %s %s (first failing cycle: %s)" % (
             rp["obligation"], name, "VIOLATED on current tree" if ok else "not violated on current tree", ff))
+        return 1 if ok else 0
+    if rp.get("kind") == "window":
+        c = getattr(mod, rp["task_fn"])(rp["config"])
+        goal, wdepth = c.windows[rp["clause"]]
+        rr = engine.replay_window_native(c, rp["trace"], goal, wdepth, rp["window_start"])
+        ok = bool(rr["violated"]) and rr["assume_fail"] is None
+        print("replay %s: window clause %s %s" % (rp["obligation"], rp["clause"],
+                                                  "VIOLATED on current tree" if ok else "not violated on current tree"))
         return 1 if ok else 0
     if rp.get("kind") == "pyargs" and hasattr(mod, "replay"):
         return mod.replay(rp)
